@@ -59,6 +59,11 @@ def step (t : List String) : Option String :=
       match convertArr to fr [a, b, c] with
       | some [x, y, z] => pure s!"ok {x} {y} {z}"
       | _ => pure "abort"
+  | ["tvstore_x", abi, ty, uty, v] => do
+      -- `tainted_volatile<T> = (U)v`: converted straight from the value's type U to the guest type of T
+      let abi ← abiOfName abi; let ty ← baseTyOfName ty; let u ← baseTyOfName uty; let v ← parseInt? v
+      if ¬ u.app.inRange v then pure "badinput" else
+      pure (match convertFund (ty.guest abi) u.app v with | some r => s!"ok guest={r}" | none => "abort")
   | [op, abi, ty, v] => do
       let abi ← abiOfName abi; let ty ← baseTyOfName ty; let v ← parseInt? v
       let app := ty.app; let g := ty.guest abi
